@@ -13,7 +13,7 @@ from sa.report import Ctx
 from .common import generic_sweeps
 from sa.stutter import stutter_paths
 
-from .sat_common import SatRoles, check_add_sites, check_assumption_assertion, check_backtrack
+from .sat_common import SatRoles, check_add_sites, check_assumption_assertion, check_backtrack, check_heap_flags
 
 EXPLANATION = (
     "Decides structural necessary conditions of 'INFEASIBLE only without a model / always returns within budgets' on "
@@ -41,6 +41,7 @@ def run(ctx: Ctx):
     check_analyze_guard(ctx, roles)
     check_assumption_assertion(ctx, roles, "C02-O7")
     ctx.assume("conflict-only cycles terminate because consecutive conflicts strictly lower the decision level (not verified)")
+    check_heap_flags(ctx, "C02-O8")
     generic_sweeps(ctx, skip_stutter_modules=("solvor/sat.py",))
 
 
@@ -357,6 +358,12 @@ def _v_declevel_not_reset(tree):
     M.replace_stmt(f, lambda s: M.src_is(s, "dec_level = bt_level"), [])
 
 
+def _v_flag_kept_on_skip(tree):
+    g = M.find_func(tree, "solve_sat.pick_var")
+    M.replace_stmt(g, lambda s: M.src_is(s, "in_heap[var] = False"), [])
+    M.replace_stmt(g, lambda s: isinstance(s, ast.Return) and M.src_is(s.value, "var"), lambda s: M.stmts("in_heap[var] = False") + [s])
+
+
 def _t_budget_flipped(tree):
     f = M.find_func(tree, "solve_sat")
     M.replace_expr(f, lambda e: M.src_is(e, "conflicts >= max_conflicts"), M.expr("max_conflicts <= conflicts"))
@@ -398,6 +405,7 @@ VARIANTS = [
     M.Variant("pure literals not guarded against assumptions (original defect)", SAT, _v_pure_unguarded, "C02-O4"),
     M.Variant("dec_level not updated after backjump", SAT, _v_declevel_not_reset, "C02-O3"),
     M.Variant("backtrack reads the boundary after shrinking (original defect)", SAT, _v_backtrack_reads_after_shrink, "C02-O6"),
+    M.Variant("pick_var clears the in-heap flag only for the variable it returns (seed C01-D)", SAT, _v_flag_kept_on_skip, "C02-O8"),
     M.Variant("twin: reformat only", SAT, _t_reformat, None),
     M.Variant("twin: rename locals of the backtrack routine", SAT, _t_rename, None),
     M.Variant("twin: comparisons written the other way round", SAT, _t_budget_flipped, None),
